@@ -80,7 +80,7 @@ func GenerateSet(t *tape.Tape, illFormed bool) *Set {
 		// imports of earlier modules (acyclic)
 		for j := 0; j < i; j++ {
 			if t.Draw(3) > 0 {
-				imp := S("import", g.mods[j].Name, S("prefix", g.mods[j].Prefix))
+				imp := g.importStmt(m, g.mods[j])
 				m.Root.Add(imp)
 				m.Imports = append(m.Imports, g.mods[j])
 			}
@@ -102,7 +102,7 @@ func GenerateSet(t *tape.Tape, illFormed bool) *Set {
 		// a submodule may import modules of its own (only earlier ones, so that no import cycle arises)
 		for j := 0; j < oi; j++ {
 			if t.Coin() {
-				sm.Root.Add(S("import", g.mods[j].Name, S("prefix", g.mods[j].Prefix)))
+				sm.Root.Add(g.importStmt(sm, g.mods[j]))
 			}
 		}
 		owner.Root.Kids = append(owner.Root.Kids[:2:2], append([]*Stmt{S("include", sm.Name)}, owner.Root.Kids[2:]...)...)
@@ -172,6 +172,53 @@ func GenerateSet(t *tape.Tape, illFormed bool) *Set {
 	return g.set
 }
 
+// importStmt builds `import target { prefix p; }` for m. Usually p is the
+// target's own prefix; sometimes a local alias from a small pool, so that the
+// same prefix string means different modules in different importers.
+func (g *gen) importStmt(m, target *Module) *Stmt {
+	p := target.Prefix
+	if g.t.Rare(4) {
+		p = []string{"dep", "ext", "q"}[g.t.Draw(3)]
+	}
+	// unique within m and different from m's own prefix
+	for tries := 0; tries < 4; tries++ {
+		clash := p == m.Prefix
+		for _, k := range m.Root.Kids {
+			if k.Kw == "import" && k.Find("prefix") != nil && k.Find("prefix").Arg == p {
+				clash = true
+			}
+		}
+		if !clash {
+			break
+		}
+		p = target.Prefix
+		if tries > 0 {
+			p = fmt.Sprintf("%sx%d", target.Prefix, tries)
+		}
+	}
+	if p != target.Prefix {
+		g.set.Probes["import_with_alias_prefix"] = true
+	}
+	return S("import", target.Name, S("prefix", p))
+}
+
+// pfx is the prefix by which m refers to module target (its own prefix for
+// itself and its family, else the prefix of m's import statement).
+func (g *gen) pfx(m, target *Module) string {
+	target = g.owner(target)
+	if g.owner(m) == target {
+		return m.Prefix
+	}
+	for _, k := range m.Root.Kids {
+		if k.Kw == "import" && k.Arg == target.Name {
+			if p := k.Find("prefix"); p != nil {
+				return p.Arg
+			}
+		}
+	}
+	return target.Prefix
+}
+
 // byName finds a generated module or submodule.
 func (g *gen) byName(n string) *Module {
 	for _, x := range g.all {
@@ -236,7 +283,7 @@ func (g *gen) ref(m, def *Module, name string) string {
 		}
 		return name
 	}
-	return g.owner(def).Prefix + ":" + name
+	return g.pfx(m, def) + ":" + name
 }
 
 func (g *gen) features(m *Module) {
@@ -261,7 +308,7 @@ func (g *gen) features(m *Module) {
 			f.Add(S("if-feature", g.ref(m, c.m, c.n)))
 			g.set.Probes["feature_chain"] = true
 			// a second (and third) if-feature: diamonds in the feature graph
-			for len(cands) > 1 && t.Rare(3) {
+			for len(cands) > 1 && t.Rare(6) {
 				c2 := cands[t.Draw(len(cands))]
 				if c2 != c {
 					f.Add(S("if-feature", g.ref(m, c2.m, c2.n)))
@@ -270,7 +317,7 @@ func (g *gen) features(m *Module) {
 			}
 		}
 		m.Root.Add(f)
-		if m.Sub && !t.Rare(16) {
+		if m.Sub && !t.Rare(48) {
 			continue // this compiler does not merge features defined in submodules: define, rarely reference
 		}
 		m.Features = append(m.Features, f.Arg)
@@ -305,7 +352,7 @@ func (g *gen) identities(m *Module) {
 			}
 		}
 		m.Root.Add(id)
-		if m.Sub && !t.Rare(16) {
+		if m.Sub && !t.Rare(48) {
 			continue // likewise for identities
 		}
 		m.Identities = append(m.Identities, id.Arg)
@@ -844,7 +891,7 @@ func (g *gen) schemaPath(m *Module, n *DNode) string {
 	}
 	var b strings.Builder
 	for i := len(chain) - 1; i >= 0; i-- {
-		pfx := chain[i].Mod.Prefix
+		pfx := g.pfx(m, chain[i].Mod)
 		b.WriteString("/" + pfx + ":" + chain[i].Name)
 	}
 	return b.String()
@@ -976,7 +1023,6 @@ func (g *gen) clusters() {
 	}
 	if len(leaves) > 0 && t.Coin() {
 		l := leaves[t.Draw(len(leaves))]
-		tgt := g.schemaPath(importers[0], l)
 		// make the leaf an int32 with a default so that replace/add/delete of default are all meaningful
 		l.Stmt.Kids = []*Stmt{S("type", "int32")}
 		hasDef := t.Coin()
@@ -989,7 +1035,7 @@ func (g *gen) clusters() {
 		}
 		for i := 0; i < n; i++ {
 			m := importers[i]
-			d := S("deviation", tgt)
+			d := S("deviation", g.schemaPath(m, l))
 			val := fmt.Sprint(100 * (i + 1))
 			switch {
 			case hasDef && t.Draw(3) > 0:
@@ -1068,7 +1114,7 @@ func addLinkage(m *Module, st *Stmt) {
 
 func (g *gen) breakSomething() {
 	t := g.t
-	op := t.Draw(20)
+	op := t.Draw(21)
 	mods := g.mods
 	m := mods[t.Draw(len(mods))]
 	switch op {
@@ -1208,6 +1254,46 @@ func (g *gen) breakSomething() {
 			m.Root.Add(S("typedef", tn, S("type", "int8", S("range", "0..10"))), S("leaf", g.name("l"), S("type", tn, S("range", "5..20"))))
 			g.set.Ops = append(g.set.Ops, "bad-range-widening")
 		}
+	case 20: // the same prefix string ("dep") denotes different modules in two importers that contain textually identical references
+		{
+			mk := func(name, pfx string) *Module {
+				m := &Module{Name: name, Prefix: pfx}
+				m.Root = S("module", name, S("namespace", "urn:"+name), S("prefix", pfx))
+				return m
+			}
+			na, nb := mk(g.name("na"), g.name("pa")), mk(g.name("nb"), g.name("pb"))
+			nx, ny := mk(g.name("nx"), g.name("px")), mk(g.name("ny"), g.name("py"))
+			nz := mk(g.name("nz"), g.name("pz"))
+			na.Root.Add(S("identity", "root"), S("feature", "fr"))
+			bothDefine := t.Coin()
+			if bothDefine {
+				nb.Root.Add(S("identity", "root"), S("feature", "fr"))
+			} else {
+				nb.Root.Add(S("identity", "other"))
+			}
+			nx.Root.Add(S("import", na.Name, S("prefix", "dep")))
+			ny.Root.Add(S("import", nb.Name, S("prefix", "dep")))
+			for i, m := range []*Module{nx, ny} {
+				m.Root.Add(S("identity", fmt.Sprintf("derived%d", i), S("base", "dep:root")))
+				if t.Coin() {
+					m.Root.Add(S("feature", fmt.Sprintf("fd%d", i), S("if-feature", "dep:fr")))
+				}
+			}
+			nz.Root.Add(S("import", na.Name, S("prefix", na.Prefix)), S("import", nb.Name, S("prefix", nb.Prefix)),
+				S("import", nx.Name, S("prefix", nx.Prefix)), S("import", ny.Name, S("prefix", ny.Prefix)))
+			nz.Root.Add(S("leaf", g.name("l"), S("type", "identityref", S("base", na.Prefix+":root"))))
+			if bothDefine {
+				nz.Root.Add(S("leaf", g.name("l"), S("type", "identityref", S("base", nb.Prefix+":root"))))
+			}
+			g.set.Features = append(g.set.Features, na.Name+":fr")
+			g.set.Mods = append(g.set.Mods, na, nb, nx, ny, nz)
+			g.all = append(g.all, na, nb, nx, ny, nz)
+			if bothDefine {
+				g.set.Ops = append(g.set.Ops, "same-prefix-different-module-both-valid")
+			} else {
+				g.set.Ops = append(g.set.Ops, "same-prefix-different-module-one-dangling")
+			}
+		}
 	case 19: // a definition (or an import) that is only reachable through a chain of includes x1 -> x2 -> x3
 		{
 			owner := m
@@ -1284,19 +1370,19 @@ func (g *gen) breakSomething() {
 				return false
 			}
 			if !imports(c, a) {
-				addLinkage(c, S("import", a.Name, S("prefix", a.Prefix)))
+				addLinkage(c, g.importStmt(c, a))
 			}
 			if !imports(c, b) {
-				addLinkage(c, S("import", b.Name, S("prefix", b.Prefix)))
+				addLinkage(c, g.importStmt(c, b))
 			}
 			tn, gn := g.name("tsame"), g.name("gsame")
 			a.Root.Add(S("typedef", tn, S("type", "int8")), S("grouping", gn, S("leaf", g.name("l"), S("type", "string"))))
 			b.Root.Add(S("typedef", tn, S("type", "string")), S("grouping", gn, S("leaf", g.name("l"), S("type", "boolean"))))
 			c.Root.Add(S("container", g.name("c"),
-				S("leaf", g.name("l"), S("type", a.Prefix+":"+tn)),
-				S("leaf", g.name("l"), S("type", b.Prefix+":"+tn)),
-				S("container", g.name("c"), S("uses", a.Prefix+":"+gn)),
-				S("container", g.name("c"), S("uses", b.Prefix+":"+gn))))
+				S("leaf", g.name("l"), S("type", g.pfx(c, a)+":"+tn)),
+				S("leaf", g.name("l"), S("type", g.pfx(c, b)+":"+tn)),
+				S("container", g.name("c"), S("uses", g.pfx(c, a)+":"+gn)),
+				S("container", g.name("c"), S("uses", g.pfx(c, b)+":"+gn))))
 			if t.Coin() {
 				// and a local definition of the same name, used unprefixed
 				c.Root.Add(S("typedef", tn, S("type", "boolean")), S("leaf", g.name("l"), S("type", tn)))
